@@ -533,6 +533,9 @@ class Evaluator:
             if m == 'map' and len(ch) == 2:
                 c = peel(ch[1])
                 fdesc = 'map:' + (src(c)[:60])
+                if not hasattr(self, 'map_closures'):
+                    self.map_closures = {}
+                self.map_closures[fdesc] = c
                 if c.get('k') == 'Path' and src(c).endswith('Some'):
                     fdesc = 'Some'
             if m in ('iter_cast', 'opt_iter_cast', 'to_opt_iter'):
